@@ -68,7 +68,7 @@
  * @param[in] S                 - the number of obecs to allocate.
  */
 #if ALLOC == DYNAMIC
-#define RLC_ALLOCA(T, S)		(T*) malloc((S) * sizeof(T))
+#define RLC_ALLOCA(T, S)		(T*) calloc((S), sizeof(T))
 #else
 #define RLC_ALLOCA(T, S)		(T*) alloca((S) * sizeof(T))
 #endif
